@@ -251,6 +251,13 @@ class CheckRun:
             self.obligation(f"theorem {t} (coq/props/{self.prop}.v)", rc == 0, errtxt[-2000:])
         if not thms:
             self.obligation(f"props/{self.prop}.v has theorems", False, "none")
+        # every property theorem must be followed by Print Assumptions and must be closed under the global context
+        # (no axiom declared here; standard-library axioms would have to be named in the trusted base first)
+        if rc == 0:
+            missing = [t for t in thms if t not in printed]
+            open_ = {t: a for t, a in self.assumptions_out.items() if t in printed and not a.startswith("Closed under the global context")}
+            self.obligation(f"Print Assumptions: all {len(thms)} theorems of props/{self.prop}.v closed under the global context",
+                            not missing and not open_, f"without Print Assumptions: {missing}; not closed: {open_}")
 
     def generated_theorems(self, fname: str, text: str):
         """Write generated/<fname> (tables read off the live code + theorems about them) and compile it."""
